@@ -658,6 +658,26 @@ func (g *progGen) stmt(indent, depth int, last bool) (terminated bool) {
 	return false
 }
 
+// shadowGlobal sometimes reads and updates a global and then declares a local of the same name
+// (legal: the declaration comes after the uses), so that a later run of the same body must again
+// see the global first.
+func (g *progGen) shadowGlobal(indent int) {
+	if g.pick(3) != 0 || len(g.scopes[0]) == 0 {
+		return
+	}
+	v := g.scopes[0][g.pick(len(g.scopes[0]))]
+	if v.t.k == "any" {
+		return
+	}
+	g.line(indent, "print "+v.name)
+	if v.t.k == "num" {
+		g.line(indent, v.name+" = "+v.name+" + 1")
+	}
+	g.line(indent, v.name+" := "+g.expr(v.t, 1))
+	g.line(indent, "print "+v.name)
+	g.declare(v)
+}
+
 func (g *progGen) genFunc() {
 	name := g.fresh("f")
 	var params []gvar
@@ -683,6 +703,7 @@ func (g *progGen) genFunc() {
 	saved := g.scopes
 	g.scopes = [][]gvar{saved[0], append([]gvar(nil), params...)}
 	g.inFunc, g.retType = true, ret
+	g.shadowGlobal(1)
 	term := g.block(1, 1+g.pick(4), g.o.MaxDepth)
 	if !term {
 		g.useVars(1)
@@ -726,6 +747,7 @@ func (g *progGen) genHandler(i int) string {
 	saved := g.scopes
 	g.scopes = [][]gvar{saved[0], append([]gvar(nil), ps...)}
 	g.inFunc = true
+	g.shadowGlobal(1)
 	term := g.block(1, 1+g.pick(3), g.o.MaxDepth)
 	if !term {
 		g.useVars(1)
